@@ -85,11 +85,17 @@ def main():
                                    "violations_by_kind": kinds, "obligations": cov.get("obligations"), "discharged": cov.get("discharged")}
         if note != "-":
             meta["description"] = open(note).read().strip()
+            dn = os.path.join(VERIF, "seeded", name, "note.txt")
+            os.makedirs(os.path.dirname(dn), exist_ok=True)
+            if os.path.abspath(note) != dn:
+                shutil.copy(note, dn)
         d = os.path.join(VERIF, "seeded", name)
         os.makedirs(d, exist_ok=True)
-        shutil.copy(patch, os.path.join(d, "patch.diff"))
+        if os.path.abspath(patch) != os.path.join(d, "patch.diff"):
+            shutil.copy(patch, os.path.join(d, "patch.diff"))
         if demo != "-":
-            shutil.copy(demo, os.path.join(d, "demo.py"))
+            if os.path.abspath(demo) != os.path.join(d, "demo.py"):
+                shutil.copy(demo, os.path.join(d, "demo.py"))
         meta["confirmed"] = bool(meta["tests_with_patch"]["exit"] == 0 and (demo == "-" or (meta["demo_on_clean_tree"]["exit"] == 0 and meta["demo_with_patch"]["exit"] != 0)))
         meta["detected"] = any(c["exit"] == 1 and c["violations"] > 0 for c in meta["checks"].values())
         json.dump(meta, open(os.path.join(d, "meta.json"), "w"), indent=1)
